@@ -274,6 +274,167 @@ theorem split_stop_prefix (hN : 0 < N) (m : Option Nat) (hm : m ≠ some 0) (el 
 
 end
 
+/-! ### `_run_fill_compute` with an element that stops -/
+
+theorem foldFillX_ofEl (e : El σ α β) : ∀ (l : List α) (s : σ), foldFillX (ElX.ofEl e) l s = .ok (l.foldl e.fill s)
+  | [], _ => rfl
+  | x :: r, s => by simp only [foldFillX, ElX.ofEl, List.foldl_cons]; exact foldFillX_ofEl e r _
+
+theorem foldFillX_stopOn (e : El σ α β) (p : α → Bool) : ∀ (l : List α) (s : σ),
+    foldFillX (ElX.stopOn e p false) l s =
+      if l.all (fun x => !p x) then .ok (l.foldl e.fill s) else .stop ((l.takeWhile (fun x => !p x)).foldl e.fill s)
+  | [], _ => rfl
+  | x :: r, s => by
+    by_cases hp : p x = true
+    · simp [foldFillX, ElX.stopOn, hp]
+    · have hp' : p x = false := by simpa using hp
+      have ih := foldFillX_stopOn e p r (e.fill s x)
+      simp only [foldFillX, ElX.stopOn, hp', Bool.false_eq_true, if_false, List.all_cons, Bool.not_false, Bool.true_and,
+        List.takeWhile_cons, if_true, List.foldl_cons]
+      exact ih
+
+theorem runFillCompute_short (e : El σ α β) (N : Nat) (rst : Bool) (s : σ) (xs : List α) (h : xs.length < N) :
+    (runFillCompute e N rst false s xs).1 = [] := by
+  rw [runFillCompute]
+  have hN0 : ¬ N = 0 := by omega
+  simp only [hN0, dite_false]
+  by_cases hx : xs = []
+  · simp [hx]
+  · have hpos : 0 < xs.length := List.length_pos_iff.mpr hx
+    have htake : xs.take N = xs := List.take_of_length_le (by omega)
+    have hmod : xs.length % N ≠ 0 := by rw [Nat.mod_eq_of_lt h]; omega
+    simp [hx, htake, hmod]
+
+theorem runFillCompute_full (e : El σ α β) (N : Nat) (rst yor : Bool) (s : σ) (a b : List α) (ha : a.length = N)
+    (hN : 0 < N) :
+    (runFillCompute e N rst yor s (a ++ b)).1 =
+      (e.req (a.foldl e.fill s)).1 ++
+        (runFillCompute e N rst yor (if rst then e.reset (e.req (a.foldl e.fill s)).2 else (e.req (a.foldl e.fill s)).2) b).1 := by
+  rw [runFillCompute]
+  have hN0 : ¬ N = 0 := by omega
+  have hne : ¬ a ++ b = [] := by
+    intro h; have := congrArg List.length h; simp at this; omega
+  have htake : (a ++ b).take N = a := by rw [← ha]; simp
+  have hdrop : (a ++ b).drop N = b := by rw [← ha]; simp
+  simp only [hN0, dite_false, hne, htake, hdrop]
+  have hmod : ¬ a.length % N ≠ 0 := by simp [ha]
+  simp only [hmod, if_false]
+
+/-- never-raising element: `_run_fill_compute` of the extended model is `runFillCompute` -/
+theorem runFillComputeX_ofEl (e : El σ α β) (N : Nat) (rst yor : Bool) : ∀ (k : Nat) (xs : List α) (s : σ), xs.length ≤ k →
+    runFillComputeX (ElX.ofEl e) N rst yor s xs =
+      ((runFillCompute e N rst yor s xs).1, (runFillCompute e N rst yor s xs).2, false)
+  | 0, xs, s, h => by
+    have : xs = [] := List.length_eq_zero_iff.mp (by omega)
+    subst this
+    rw [runFillComputeX, runFillCompute]; simp
+  | k + 1, xs, s, h => by
+    rw [runFillComputeX, runFillCompute]
+    by_cases hN0 : N = 0
+    · simp [hN0]
+    · simp only [hN0, dite_false]
+      by_cases hx : xs = []
+      · simp [hx]
+      · have hpos : 0 < xs.length := List.length_pos_iff.mpr hx
+        simp only [hx, dite_false, foldFillX_ofEl]
+        by_cases hmod : (xs.take N).length % N ≠ 0
+        · simp only [hmod, if_true]
+          cases yor <;> rfl
+        · simp only [hmod, if_false]
+          rw [runFillComputeX_ofEl e N rst yor k (xs.drop N) _ (by simp; omega)]
+          rfl
+
+/-- **`run` around an element that stops** (`_run_fill_compute` does not catch `LenaStopFill`): it yields the results
+of the complete blocks of the values accepted before the first refusal, and then `LenaStopFill` leaves the generator
+iff a value was refused. -/
+theorem run_stop_prefix (e : El σ α β) (p : α → Bool) (N : Nat) (hN : 0 < N) (rst : Bool) :
+    ∀ (k : Nat) (xs : List α) (s : σ), xs.length ≤ k →
+    (runFillComputeX (ElX.stopOn e p false) N rst false s xs).1 =
+        (runFillCompute e N rst false s (xs.takeWhile (fun x => !p x))).1 ∧
+    (runFillComputeX (ElX.stopOn e p false) N rst false s xs).2.2 = xs.any p
+  | 0, xs, s, h => by
+    have : xs = [] := List.length_eq_zero_iff.mp (by omega)
+    subst this
+    rw [runFillComputeX, List.takeWhile_nil, runFillCompute]; simp
+  | k + 1, xs, s, h => by
+    have hN0 : ¬ N = 0 := by omega
+    by_cases hx : xs = []
+    · subst hx
+      rw [runFillComputeX, List.takeWhile_nil, runFillCompute]; simp
+    · have hpos : 0 < xs.length := List.length_pos_iff.mpr hx
+      rw [runFillComputeX]
+      simp only [hN0, dite_false, hx, foldFillX_stopOn]
+      have hsplit : xs = xs.take N ++ xs.drop N := (List.take_append_drop N xs).symm
+      by_cases hall : (xs.take N).all (fun x => !p x) = true
+      · simp only [hall, if_true]
+        have hany : (xs.take N).any p = false := by
+          rw [List.any_eq_false]; intro x hx'
+          have := List.all_eq_true.mp hall x hx'
+          simpa using this
+        by_cases hmod : (xs.take N).length % N ≠ 0
+        · -- a short, fully accepted flow
+          have hlen : xs.length < N := by
+            simp only [List.length_take] at hmod
+            by_cases hl : xs.length < N
+            · exact hl
+            · have : min N xs.length = N := by omega
+              rw [this] at hmod; simp at hmod
+          have htake : xs.take N = xs := List.take_of_length_le (by omega)
+          rw [htake] at hall hany
+          have htw : xs.takeWhile (fun x => !p x) = xs := by
+            have := takeWhile_append_all (fun x => !p x) xs [] hall
+            simpa using this
+          simp only [hmod, if_true, Bool.false_eq_true, if_false]
+          rw [htw, runFillCompute_short e N rst s xs hlen, hany]
+          exact ⟨trivial, trivial⟩
+        · simp only [hmod, if_false]
+          have hfull : (xs.take N).length = N := by
+            simp only [List.length_take] at hmod ⊢
+            by_cases hl : xs.length < N
+            · have : min N xs.length = xs.length := by omega
+              rw [this, Nat.mod_eq_of_lt hl] at hmod
+              simp at hmod; omega
+            · omega
+          obtain ⟨ih1, ih2⟩ := run_stop_prefix e p N hN rst k (xs.drop N)
+            (if rst then e.reset (e.req ((xs.take N).foldl e.fill s)).2 else (e.req ((xs.take N).foldl e.fill s)).2)
+            (by simp; omega)
+          constructor
+          · conv => rhs; rw [hsplit, takeWhile_append_all _ _ _ hall, runFillCompute_full e N rst false s _ _ hfull hN]
+            rw [← ih1]
+          · conv => rhs; rw [hsplit, List.any_append, hany, Bool.false_or]
+            exact ih2
+      · have hall' : (xs.take N).all (fun x => !p x) = false := by simpa using hall
+        simp only [hall', Bool.false_eq_true, if_false]
+        have hany : (xs.take N).any p = true := by
+          rw [List.any_eq_true]
+          have : ¬ ∀ x ∈ xs.take N, (!p x) = true := by
+            intro hh; exact hall (List.all_eq_true.mpr hh)
+          by_contra hcon
+          apply this
+          intro x hx'
+          by_cases hpx : p x = true
+          · exact absurd ⟨x, hx', hpx⟩ hcon
+          · simpa using hpx
+        constructor
+        · conv => rhs; rw [hsplit, takeWhile_append_not_all _ _ _ hall']
+          have hlen : ((xs.take N).takeWhile (fun x => !p x)).length < N := by
+            have h1 : ((xs.take N).takeWhile (fun x => !p x)).length < (xs.take N).length := by
+              by_contra hcon
+              have hle := List.length_takeWhile_le (fun x => !p x) (xs.take N)
+              have heq : ((xs.take N).takeWhile (fun x => !p x)).length = (xs.take N).length := by omega
+              have : (xs.take N).takeWhile (fun x => !p x) = xs.take N :=
+                List.IsPrefix.eq_of_length (List.takeWhile_prefix _) heq
+              have hall2 : (xs.take N).all (fun x => !p x) = true := by
+                rw [List.all_eq_true]
+                intro x hx'
+                rw [← this] at hx'
+                exact (List.mem_takeWhile_imp hx')
+              exact hall hall2
+            have h2 : (xs.take N).length ≤ N := by simp
+            omega
+          rw [runFillCompute_short e N rst s _ hlen]
+        · conv => rhs; rw [hsplit, List.any_append, hany, Bool.true_or]
+
 /-- block size 3, the element refuses the values `≥ 4`, Split block size 2 -/
 example : splitX (ElX.stopOn (lstEl : El (List Nat) Nat (List Nat)) (fun x => decide (4 ≤ x)) false) .atCall 3 true false
     false (some 2) [] [0, 1, 2, 3, 4, 5, 6, 7] = ([[0, 1, 2]], false) := by decide +kernel
@@ -408,12 +569,6 @@ theorem requestX_ceq (rst rst' : Bool) (s : StX σ α β) (s' : StX σ' α β') 
   rw [c2, c3]
   simp only [Bool.false_eq_true, if_false]
   exact d _ _ c1
-
-/-- the history without its `reset()` calls -/
-def dropResets : List (OpX α) → List (OpX α)
-  | [] => []
-  | .reset :: r => dropResets r
-  | o :: r => o :: dropResets r
 
 /-- **`reset()` does not move a block boundary.**  For never-raising elements the fill counter and `_buffer_in`
 after a history do not depend on the wrapped element, on the `reset` flag, on where generators are iterated — nor on
